@@ -17,6 +17,7 @@ import SpiceEv.Proofs.StratBalancedMarketLimitStep
 import SpiceEv.Proofs.StratBalancedMarketBatLimit
 import SpiceEv.Proofs.StratBalancedMarketBatLimitStep
 import SpiceEv.Proofs.StratBalancedMarketV2gStep
+import SpiceEv.Proofs.StratBalancedMarketDraw
 import SpiceEv.Proofs.StratBalancedMarketToy
 set_option linter.unusedSectionVars false
 namespace SpiceEv
@@ -187,6 +188,97 @@ theorem C04_balanced_market_step_with_batteries_within_limit_partial (ops : Ops 
       g'.currentLoad ≤ g.curMax ∧ g'.curMax = g.curMax :=
   step_limit_bat ops law R sl env w w' cmds heps hfut hmax hnov2g hmin hnd hbase hmode h
 
+/-- **balanced_market keeps every connector within ±limit — no exclusion left.**  `BalancedMarket.step`
+(with the repairs BM1, BM2) on any world whose load keys are fresh and unique (`FreshKeys`, below): any
+number of connectors, stations, vehicles — V2G-capable or not —, stationary batteries, any prices, horizon,
+events (all in the future); battery obeying `BatLaw` and the copy law `SimLaw`.  If fixed load and
+generation alone respect the limit of every connector (`−cur_max_power ≤ load ≤ cur_max_power`), then after
+the step every connector's load is within `±` its unchanged limit.
+
+`FreshKeys w` is the well-formedness of the world *before* the strategy step and is what the run loop
+guarantees: `Strategy.step` removes the entries of all charging stations and stationary batteries from every
+connector's `current_loads` before the strategy runs (C07 model `StrategyBase`: `resetLoads`, theorem family
+C07), so every station / battery entry is created by this step; connector, vehicle and battery ids are
+unique; a battery id is not a station id, and neither is the name of a fixed load or generator; batteries'
+minimum charging powers are `≥ 0`; and no two vehicles stand at the same charging station.  The last one is
+essential: with two vehicles at one station the station's entry can be positive while the station is on
+`discharging_stations`, and `get_current_load(exclude=…)` then under-reports the load to the surplus pass.
+
+Proof of the draw side with V2G: through the vehicle loop the forecast of the current timestep equals the
+real headroom (each vehicle books exactly the power the forecast update replays), every booked charge is at
+most that forecast, and the entries of all discharging stations / batteries in `current_loads` are `≤ 0`
+(they are fresh keys holding `−out`), hence `load ≤ load without the discharging ones`, which is what the
+surplus pass and the battery block hand out against. -/
+theorem C04_balanced_market_step_within_limit (ops : Ops α B) (law : BatLaw ops.toBatOps)
+    (R : B → B → Prop) (sl : SimLaw ops R) (env : Env α) (w w' : SWorld α B) (cmds : List (String × α))
+    (heps : 0 ≤ env.eps) (hfut : ∀ e ∈ env.events, env.now < e.start) (wf : FreshKeys w)
+    (hbase : ∀ g ∈ w.gcs, 0 ≤ g.curMax ∧ -g.curMax ≤ g.currentLoad ∧ g.currentLoad ≤ g.curMax)
+    (h : BalancedMarket.step ops env w = .ok (w', cmds)) :
+    ∀ g' ∈ w'.gcs, ∃ g ∈ w.gcs, g.id = g'.id ∧ -g.curMax ≤ g'.currentLoad ∧
+      g'.currentLoad ≤ g.curMax ∧ g'.curMax = g.curMax :=
+  step_both ops law R sl env w w' cmds heps hfut wf hbase h
+
+/-- the draw side for one call of `step_gc`, with V2G-capable vehicles and stationary batteries (the
+hypotheses are the part of `FreshKeys` that concerns this connector; `wv` are the vehicles' (id, station)
+data, which never change) -/
+theorem C04_balanced_market_step_gc_draw_limit_with_v2g (ops : Ops α B) (law : BatLaw ops.toBatOps)
+    (R : B → B → Prop) (sl : SimLaw ops R) (env : Env α) (w w' : SWorld α B) (gcId : String)
+    (cmds : List (String × α)) (gc : GcS α) (hgc : w.gc? gcId = some gc)
+    (heps : 0 ≤ env.eps) (hM : 0 ≤ gc.curMax) (hbase : gc.currentLoad ≤ gc.curMax)
+    (hfut : ∀ e ∈ env.events, env.now < e.start)
+    (hvnd : (w.vehicles.map (·.id)).Nodup)
+    (H2 : ∀ u1 ∈ w.vehicles, ∀ u2 ∈ w.vehicles, ∀ c, u1.cs = some c → u2.cs = some c → u1.id = u2.id)
+    (H3 : ∀ u ∈ w.vehicles, ∀ c, u.cs = some c → c ∉ gc.loads.map (·.1))
+    (hbnd : (w.batteries.map (·.id)).Nodup)
+    (H4a : ∀ id ∈ w.batteries.map (·.id), id ∉ gc.loads.map (·.1))
+    (H4c : ∀ id ∈ w.batteries.map (·.id), ∀ u ∈ w.vehicles, u.cs ≠ some id)
+    (hmin : ∀ b ∈ w.batteries, 0 ≤ b.minChargingPower)
+    (h : stepGc ops env w gcId = .ok (w', cmds)) :
+    ∀ g' ∈ w'.gcs, g'.id = gcId → g'.currentLoad ≤ gc.curMax :=
+  (stepGc_upper ops law R sl env w w' gcId cmds gc hgc heps hM hbase hfut w.vehicles (VMeta_init w) hvnd H2 H3
+    hbnd H4a H4c hmin h).1
+
+/-- the example world of the two non-vacuity examples below: a 3 kW connector with 2 kW of generation, a
+V2G vehicle at SoC 0.9, a second vehicle that wants to charge, and a stationary battery -/
+def c04World : SWorld ℚ ℚ :=
+  ⟨[⟨"GC", 3, some (.fixed (3/10)), [("pv", -2)]⟩], [toyCs, ⟨"CS2", "GC", 11, 0, 0⟩],
+   [toyVeh true (9/10), ⟨"v2", some "CS2", 8/10, some (2 * hourUs), 0, false, 1/2, 1/2⟩], [⟨"B1", "GC", 0, 1/2⟩]⟩
+
+/-- Non-vacuity: the world is well-formed (`FreshKeys`), base load −2 within ±3. -/
+example : FreshKeys c04World :=
+  ⟨by decide +kernel, by decide +kernel, by decide +kernel, by decide +kernel, by decide +kernel,
+   by decide +kernel, by decide +kernel, by decide +kernel⟩
+
+/-- … with 0.10 announced for the next step the V2G vehicle discharges 1 kW now (its station goes on
+`discharging_stations`), the surplus pass hands the remaining feed-in (3 kW without the discharging station)
+to the other vehicle, which takes 2 kW: load −1, within ±3.  With 0.50 announced the second vehicle charges
+`≈ 3` kW now and the battery supports the connector: load 0. -/
+example :
+    (BalancedMarket.step toyOps (toyEnv (some (1/10))) c04World).toOption.map
+      (fun r => (r.2, r.1.gcs.map (fun g => (g.currentLoad, decide (-g.curMax ≤ g.currentLoad ∧ g.currentLoad ≤ g.curMax))))) =
+      some ([("CS1", -1), ("CS2", 2)], [(-1, true)]) := by decide +kernel
+example :
+    (BalancedMarket.step toyOps (toyEnv (some (1/2))) c04World).toOption.map
+      (fun r => r.1.gcs.map (fun g => (g.currentLoad, decide (-g.curMax ≤ g.currentLoad ∧ g.currentLoad ≤ g.curMax)))) =
+      some [(0, true)] := by decide +kernel
+
+/-- **Witness: `FreshKeys.oneVehiclePerStation` cannot be dropped.** Two vehicles at the *same* station CS1
+(a malformed world; the scenario loader does not reject it): limit 2.5 kW, generation 2.5 kW (base load −2.5,
+within the limit), price 0.30 now and 0.10 next.  Vehicle `a` (leaves after this step) charges `≈ 5` kW, the
+V2G vehicle `b` discharges 0.5 kW through the same station: the station's entry is `≈ +4.5` while the station is
+on `discharging_stations`, `get_current_load(exclude=…)` reports −2.5, and the surplus pass hands another
+2.5 kW to vehicle `c`: load `589811/131072 ≈ 4.5 > 2.5`.  Replayed on the real code
+(corpus/S_BALANCED_MARKET/two_vehicles_one_station.json: commands CS1 4.4999, CS2 2.5, total 4.4999 kW at a
+2.5 kW connector; the run is flagged as aborted by the monitor). -/
+example :
+    (BalancedMarket.step toyOps (toyEnv (some (1/10)))
+      ⟨[⟨"GC", 5/2, some (.fixed (3/10)), [("pv", -5/2)]⟩], [toyCs, ⟨"CS2", "GC", 11, 0, 0⟩],
+       [⟨"a", some "CS1", 8/10, some hourUs, 0, false, 1/2, 3/10⟩,
+        ⟨"b", some "CS1", 8/10, some (2 * hourUs), 0, true, 1/2, 11/20⟩,
+        ⟨"c", some "CS2", 8/10, some (2 * hourUs), 0, false, 1/2, 1/2⟩], []⟩).toOption.map
+      (fun r => r.1.gcs.map (fun g => (g.currentLoad, decide (g.curMax < g.currentLoad)))) =
+      some [(589811/131072, true)] := by decide +kernel
+
 /-- **Feed-in side of the limit with V2G-capable vehicles and stationary batteries (whole step).**
 After repair BM1 the V2G discharge limit `timesteps[0].power − 2·max_power` is enough: for
 `BalancedMarket.step` on any world with unique connector ids — any number of vehicles (V2G-capable or not),
@@ -202,10 +294,8 @@ timestep (it sits before `sorted_idx`; the indices of `sorted_ts` are distinct),
 `power`; hence a discharge of at most `2·max_power − timesteps[0].power` cannot pass `−max_power`.  Surplus
 pass and battery charging only raise the load; the battery support discharge is bounded by
 `cur_max_power + load`.
-Not covered with V2G-capable vehicles (and exactly this): the *draw* side `load ≤ limit`.  It is proved
-without V2G (`C04_balanced_market_step_with_batteries_within_limit_partial`); with V2G the surplus pass and
-the battery block work with `get_current_load(exclude = discharging_stations)`, and bounding what they hand
-out needs the entries of the discharging stations to be `≤ 0` (fresh, unique keys), which is not proved. -/
+This theorem needs no assumption on load keys; the *draw* side with V2G does (`FreshKeys`) and is part of
+`C04_balanced_market_step_within_limit`. -/
 theorem C04_balanced_market_step_feed_in_limit_with_v2g (ops : Ops α B) (law : BatLaw ops.toBatOps)
     (R : B → B → Prop) (sl : SimLaw ops R) (env : Env α) (w w' : SWorld α B) (cmds : List (String × α))
     (hfut : ∀ e ∈ env.events, env.now < e.start) (hnd : (w.gcs.map (·.id)).Nodup)
